@@ -383,20 +383,22 @@ def compare_tables(obs, ra, rb, k, last_only=False, stats=None):
 
 
 def floor_for(name, mu, ext, extensive):
-    """absolute floors: quantities that are legitimately ~0 or only determined to the solver's mass-balance tolerance.
-    * log quantities (pH, log activities, SI, psi): 1e-8 absolute (= 2.3e-8 relative in the activity itself);
-    * charge balance: 1e-8 × ionic strength × water (a balanced solution has cb ≈ 0 ± rounding of the sums);
-    * molalities / totals / alkalinity: 1e-8 × 1e-3 × ionic strength (species far below the mass-balance tolerance
-      convergence_tolerance × element total are not determined better than that);
-    * everything else: none."""
+    """absolute floors added to the 1e-8 relative tolerance, taken from the solver's own acceptance criteria
+    (model.cpp check_residuals, convergence_tolerance eps = 1e-8): a converged state is only defined up to
+    charge-balance residual eps·I·water and mass-balance residuals eps·total, so
+    * molalities, element totals, alkalinity: eps·I (I = ionic strength of the row, mol/kgw) — species far below
+      I are trace quantities whose value moves with the residual the solver accepts;
+    * mole amounts (TOTMOLE, EQUI, GAS, KIN, charge balance, SYS): eps·I·water;
+    * log quantities (pH, log activities, SI, psi): 1e-8 absolute (SI of an equilibrated phase is 0 ± rounding);
+    * everything else (mu, temperature, water mass, density, volume, conductance, activity of water): none."""
     if name in ("pH",) or name.startswith(("la_", "si_")) or name == "psi":
         return 1e-8
     if name == "cb":
         return 1e-8 * mu * ext
     if name.startswith(("m_", "tot_", "OH")) or name == "alk":
-        return 1e-11 * mu
+        return 1e-8 * mu
     if name.startswith(("totmole_", "equi_", "gas_", "kin")):
-        return 1e-11 * mu * ext
+        return 1e-8 * mu * ext
     return 0.0
 
 
@@ -623,7 +625,7 @@ MANIFEST = dict(
     note="Trusted: harness/ph_units.cpp (friend access, BASIC callback), tools/gens/units.py (database reading of element weights, formula "
          "parser, spelling→canonical table cross-checked against the engine's report every run), comparison logic. Partial: check_units "
          "string canonicalisation and the formula parser are python-side tables tied by correspondence, not Lean models; invariance of the "
-         "Newton solve itself is exploration only; pe is not compared (without a redox couple it is not determined by the input); floors: "
-         "log quantities 1e-8 absolute, charge balance 1e-8·mu·water, molalities 1e-11·mu. Per-litre vs per-kg-water equivalence is not "
+         "Newton solve itself is exploration only; pe is not compared (without a redox couple it is not determined by the input); floors (from the solver's "
+         "acceptance criteria): log quantities 1e-8 absolute, molalities/totals 1e-8·I, mole amounts 1e-8·I·water. Per-litre vs per-kg-water equivalence is not "
          "claimed (density iteration). Code quirk outside the listed families: eq/kgs is left out of the solute mass while eq/l is not.",
 )
